@@ -162,11 +162,15 @@ def build_script(t, post):
         elif how in ('ASw', 'ASn'):
             defaults(True)
             s.add('opt.new B')
-            pb.init('B', 'IB')
-            X.set_flags(s, 'B', FL_B)
-            s.add('opt.steps B 1')
             if how == 'ASw':
-                X.eval_cmd(s, 'B', 'EB0', xz, tag='ez')
+                # destination: fully configured differently (other problem, flags, resolution 3, energy weight, own workspace)
+                pb.init('B', 'IB')
+                X.set_flags(s, 'B', FL_B)
+                s.add('opt.steps B 3')
+                s.add('opt.rho B', zk)
+                X.declare_oracle(s, rng, 'ezb', 3, 3, d)
+                X.eval_cmd(s, 'B', 'EB0', xz, tag='ezb')
+            # 'ASn': destination default-constructed (invalid, no problem, no workspace): every member must come from the source
             defaults(False)
             s.add('opt.assign B A')
             cp = 'B'
